@@ -493,6 +493,11 @@ func (e *env) garbageCase(c Case) {
 		e.r.Violate("reader-panic", "impl-oracle", fmt.Sprintf("Read panicked on a %s stream of %d bytes: %v", variant, len(stream), pan), c)
 		return
 	}
+	if bytes.HasPrefix(head, got) && len(got) < len(head) {
+		e.r.Violate("payload-before-damage-not-delivered", "impl-oracle",
+			fmt.Sprintf("%s stream: the honest packet before the damage carried %d payload bytes, Read delivered %d (err=%v)", variant, len(head), len(got), rerr), c)
+		return
+	}
 	if !bytes.Equal(got, head) {
 		e.r.Violate("altered-data-delivered", "impl-oracle",
 			fmt.Sprintf("%s stream: Read delivered %d bytes %x, only %x was sent as payload (err=%v)", variant, len(got), trunc(string(got), 40), head, rerr), c)
